@@ -299,9 +299,38 @@ dvec from_vector(const vector_t& x)
     return v;
 }
 
+// rows [r0, r1) of a row-major matrix / of a vector
+inline dvec rows_of(const dvec& M, const int64_t n, const int64_t r0, const int64_t r1)
+{
+    return dvec(M.begin() + r0 * n, M.begin() + r1 * n);
+}
+
 template <class tprogram>
 void constrain(tprogram& program, const prog_t& P)
 {
+    // the constraints of one call may come in SEVERAL blocks (stack.h places them one after the other, equalities and
+    // inequalities interleaved in any order): programs with >= 3 equalities hand them over as three blocks, with the inequalities
+    // - split in two when there are >= 2 - in between (seeded change C04-h1: the row offset of the third equality block)
+    if (P.p >= 3)
+    {
+        const auto eq = [&](const int64_t r0, const int64_t r1)
+        { return program::make_equality(to_matrix(rows_of(P.A, P.n, r0, r1), r1 - r0, P.n), to_vector(rows_of(P.b, 1, r0, r1))); };
+        const auto in = [&](const int64_t r0, const int64_t r1)
+        { return program::make_inequality(to_matrix(rows_of(P.G, P.n, r0, r1), r1 - r0, P.n), to_vector(rows_of(P.h, 1, r0, r1))); };
+        if (P.m >= 2)
+        {
+            program.constrain(eq(0, 1), in(0, 1), eq(1, 2), in(1, P.m), eq(2, P.p));
+        }
+        else if (P.m == 1)
+        {
+            program.constrain(eq(0, 1), eq(1, 2), in(0, 1), eq(2, P.p));
+        }
+        else
+        {
+            program.constrain(eq(0, 1), eq(1, 2), eq(2, P.p));
+        }
+        return;
+    }
     if (P.p > 0 && P.m > 0)
     {
         program.constrain(program::make_equality(to_matrix(P.A, P.p, P.n), to_vector(P.b)),
